@@ -16,6 +16,7 @@
                                                                                       access_cost, cost_estimate
      app/compass/config/cost_model/          CostModelService::build (query overrides configuration)
                                                                                    -> service_build
+     model/cost/network/network_cost_rate_builder.rs  NetworkCostRateBuilder::build   -> nbuild
      algorithm/search/edge_traversal.rs      EdgeTraversal::{forward_traversal, reverse_traversal, total_cost}
                                                                                    -> edge_traversal, total_cost
 
@@ -64,6 +65,31 @@ Definition pair_eqb (a b : Z * Z) : bool := Z.eqb (fst a) (fst b) && Z.eqb (snd 
 Definition assoc {K A} (keqb : K -> K -> bool) (m : list (K * A)) (k : K) : option A :=
   match find (fun kv => keqb (fst kv) k) m with Some kv => Some (snd kv) | None => None end.
 
+(* NetworkCostRateBuilder (model/cost/network/network_cost_rate_builder.rs): network rates backed by CSV files.
+     traversal_lookup  rows (edge_id, cost)              -> EdgeLookup, rows collected into a HashMap (a later row of
+     access_lookup     rows (source, destination, cost)  -> EdgeEdgeLookup   the same file replaces an earlier one)
+     combined          members built in order            -> Combined(members), nothing merged
+   [None] stands for a file that cannot be read (Err BuildError). *)
+Inductive nbuilder (A : Type) : Type :=
+| BTraversal (rows : option (list (Z * A)))
+| BAccess (rows : option (list ((Z * Z) * A)))
+| BCombined (l : list (nbuilder A)).
+Arguments BTraversal {A} rows. Arguments BAccess {A} rows. Arguments BCombined {A} l.
+
+Fixpoint nbuild {A} (b : nbuilder A) : res (nrate A) :=
+  match b with
+  | BTraversal (Some rows) => Ok (NEdge (rev rows))
+  | BAccess (Some rows) => Ok (NEdgeEdge (rev rows))
+  | BTraversal None | BAccess None => Err "BuildError"%string
+  | BCombined l =>
+      do rs <- (fix go (l : list (nbuilder A)) : res (list (nrate A)) :=
+                  match l with
+                  | [] => Ok []
+                  | b' :: l' => do r <- nbuild b'; do rs <- go l'; Ok (r :: rs)
+                  end) l;
+      Ok (NCombined rs)
+  end.
+
 Section Model.
   Variable N : Num.
 
@@ -72,11 +98,15 @@ Section Model.
   Definition cost_one : N := of_lit ONE.            (* Cost::ONE *)
   Definition min_cost : N := of_lit MIN_COST.       (* Cost::MIN_COST *)
 
-  (* `cost <= Cost::ZERO` / `cost < Cost::ZERO` on OrderedFloat: NaN is neither *)
-  Definition cmp_zero (c : cmp) (x : N) : bool :=
-    match c with CLe => leb x cost_zero | CLt => ltb x cost_zero end.
-  Definition enforce_strictly_positive (x : N) : N := if cmp_zero ESP_CMP x then of_lit ESP_SUBST else x.
-  Definition enforce_non_negative (x : N) : N := if cmp_zero ENN_CMP x then of_lit ENN_SUBST else x.
+  (* `cost <= bound` / `cost < bound` on OrderedFloat: NaN is neither.  Operator, bound (Cost::ZERO in the
+     unchanged source) and substitute of both clamps are read from the source by the translator. *)
+  Definition cmp_bound (c : cmp) (x b : N) : bool :=
+    match c with CLe => leb x b | CLt => ltb x b end.
+  Definition cmp_zero (c : cmp) (x : N) : bool := cmp_bound c x cost_zero.
+  Definition enforce_strictly_positive (x : N) : N :=
+    if cmp_bound ESP_CMP x (of_lit ESP_BOUND) then of_lit ESP_SUBST else x.
+  Definition enforce_non_negative (x : N) : N :=
+    if cmp_bound ENN_CMP x (of_lit ENN_BOUND) then of_lit ENN_SUBST else x.
 
   (* VehicleCostRate::map_value *)
   Fixpoint map_value (r : vrate N) (x : N) : N :=
